@@ -25,11 +25,12 @@ abbrev T (s : String) : Text := s.toList
 
 /-! ## values -/
 
-/-- value of a `detail` dict entry: `None`, a string, or a nested dict -/
+/-- value of a `detail` dict entry: `None`, a string, a nested dict, or a list (of strings / dicts) -/
 inductive Detail where
   | null
   | leaf (t : Text)
   | node (kvs : List (Text × Detail))
+  | list (items : List Detail)
   deriving Repr, Inhabited
 
 /-- the attributes of a raised `Fault` instance that travel -/
@@ -201,18 +202,33 @@ def leafElem (tag text : Text) : Xml := .elem tag [] text []
 /-! ## detail dicts ⇄ XML (etreeconv.dict_to_etree; the reference reading) -/
 
 mutual
-/-- one `k: v` entry of `dict_to_etree` -/
-def detailToXml (k : Text) : Detail → Xml
-  | .null => .elem k [] [] []
+/-- an item of a list value in `dict_to_etree`: a dict is recursed into, anything else is `str(e)`
+    (so `None` is written as the text `None`; a list inside a list is outside the modelled universe) -/
+def itemToXml (k : Text) : Detail → Xml
+  | .null => .elem k [] (T "None") []
   | .leaf t => .elem k [] t []
   | .node kvs => .elem k [] [] (kvsToXml kvs)
+  | .list _ => .elem k [] [] []
+def itemsToXml (k : Text) : List Detail → List Xml
+  | [] => []
+  | i :: is => itemToXml k i :: itemsToXml k is
+/-- one `k: v` entry of `dict_to_etree`: one element, or one element per item of a non-empty list -/
+def entryToXml (k : Text) : Detail → List Xml
+  | .null => [.elem k [] [] []]
+  | .leaf t => [.elem k [] t []]
+  | .node kvs => [.elem k [] [] (kvsToXml kvs)]
+  | .list items =>
+    match items with
+    | [] => [.elem k [] [] []]
+    | i :: is => itemsToXml k (i :: is)
 def kvsToXml : List (Text × Detail) → List Xml
   | [] => []
-  | (k, d) :: rest => detailToXml k d :: kvsToXml rest
+  | (k, d) :: rest => entryToXml k d ++ kvsToXml rest
 end
 
 mutual
-/-- reference reading of a detail element: children → dict, else text → string, else None -/
+/-- reference reading of a detail element: children → the ordered (key, value) pairs (a repeated key is
+    how XML carries a list), else text → string, else None -/
 def xmlToDetail : Xml → Detail
   | .elem _ _ text kids =>
     match kids with
@@ -224,21 +240,46 @@ def kidsToKvs : List Xml → List (Text × Detail)
 end
 
 mutual
-/-- what XML can distinguish: an empty string, an empty dict and None are the same empty element -/
-def Detail.norm : Detail → Detail
+/-- What XML can distinguish, as the reading sees it. Identified: an empty string, an empty dict, an empty
+    list and None (one empty element); a one-item list and its item; a list of n items and n entries with
+    the same key. (`None` as a list item is written as the text `None`.) -/
+def normScalar : Detail → Detail
   | .null => .null
   | .leaf t => if t = [] then .null else .leaf t
   | .node kvs =>
     match kvs with
     | [] => .null
     | kv :: rest => .node (normKvs (kv :: rest))
+  | .list _ => .null
+def normItem : Detail → Detail
+  | .null => .leaf (T "None")
+  | .leaf t => if t = [] then .null else .leaf t
+  | .node kvs =>
+    match kvs with
+    | [] => .null
+    | kv :: rest => .node (normKvs (kv :: rest))
+  | .list _ => .null
+def normItems (k : Text) : List Detail → List (Text × Detail)
+  | [] => []
+  | i :: is => (k, normItem i) :: normItems k is
+def normEntry (k : Text) : Detail → List (Text × Detail)
+  | .null => [(k, .null)]
+  | .leaf t => [(k, if t = [] then .null else .leaf t)]
+  | .node kvs =>
+    match kvs with
+    | [] => [(k, .null)]
+    | kv :: rest => [(k, .node (normKvs (kv :: rest)))]
+  | .list items =>
+    match items with
+    | [] => [(k, .null)]
+    | i :: is => normItems k (i :: is)
 def normKvs : List (Text × Detail) → List (Text × Detail)
   | [] => []
-  | (k, d) :: rest => (k, d.norm) :: normKvs rest
+  | (k, d) :: rest => normEntry k d ++ normKvs rest
 end
 
 mutual
-/-- no empty string and no empty dict anywhere below -/
+/-- no list, no empty string and no empty dict anywhere below: XML carries such a value exactly -/
 def Detail.xmlSafe : Detail → Bool
   | .null => true
   | .leaf t => t != []
@@ -246,6 +287,7 @@ def Detail.xmlSafe : Detail → Bool
     match kvs with
     | [] => false
     | kv :: rest => kvsSafe (kv :: rest)
+  | .list _ => false
 def kvsSafe : List (Text × Detail) → Bool
   | [] => true
   | (_, d) :: rest => d.xmlSafe && kvsSafe rest
@@ -258,9 +300,13 @@ def detailToDoc : Detail → Doc
   | .null => .null
   | .leaf t => .str t
   | .node kvs => .map (kvsToDoc kvs)
+  | .list items => .list (itemsToDoc items)
 def kvsToDoc : List (Text × Detail) → List (Text × Doc)
   | [] => []
   | (k, d) :: rest => (k, detailToDoc d) :: kvsToDoc rest
+def itemsToDoc : List Detail → List Doc
+  | [] => []
+  | i :: is => detailToDoc i :: itemsToDoc is
 end
 
 mutual
@@ -269,10 +315,13 @@ def docToDetail : Doc → Detail
   | .str t => .leaf t
   | .int _ => .null
   | .map kvs => .node (docKvs kvs)
-  | .list _ => .null
+  | .list xs => .list (docItems xs)
 def docKvs : List (Text × Doc) → List (Text × Detail)
   | [] => []
   | (k, d) :: rest => (k, docToDetail d) :: docKvs rest
+def docItems : List Doc → List Detail
+  | [] => []
+  | x :: xs => docToDetail x :: docItems xs
 end
 
 /-! ## dotted fault codes -/
@@ -382,7 +431,7 @@ def detail12 (F : Facts09) : Option (List (Text × Detail)) → Option (List Xml
     | .children => some [.elem tDetail12 [] [] (kvsToXml kvs)]
     | .singleRoot =>
       match kvs with
-      | [(k, d)] => some [.elem tDetail12 [] [] [detailToXml k d]]
+      | [(k, d)] => some [.elem tDetail12 [] [] (entryToXml k d)]
       | _ => none
 
 /-- Soap12.fault_to_parent; `none` = the serialiser raises (TypeError / AssertionError) -/
